@@ -35,7 +35,7 @@ type c19Src struct {
 	hits  int
 
 	// where the injected faults struck (for attributing a violation to a
-	// known finding): inside the /Length validation of ReadStreamData (ROB-2),
+	// former finding, all fixed upstream; the keys are regression detectors): inside the /Length validation of ReadStreamData (ROB-2),
 	// inside FileInfo.getTrailer (ROB-3), a short read below scanner.PeekN (ROB-1)
 	hitExtent, hitTrailer, hitPeekShort bool
 }
@@ -284,14 +284,16 @@ func c19Compare(base, got []c19Result, src *c19Src, path byte) (key, detail stri
 	}
 	switch {
 	case src.hitExtent:
-		// finding ROB-2: ReadStreamData ignores the errors of the reads that
-		// validate /Length (resolving an indirect length, endstreamAt,
-		// trimTrailingEOL) and silently recovers the extent by searching for
-		// EOL+endstream
+		// former finding ROB-2 (fixed upstream in a2d2dfe; the class key is kept as a
+		// regression detector, a recurrence is a VIOLATION): ReadStreamData ignored
+		// the errors of the reads that validate /Length (resolving an indirect
+		// length, endstreamAt, trimTrailingEOL) and silently recovered the extent
+		// by searching for EOL+endstream
 		return "C19-stream-extent-recovered-after-io-error", key + ": " + detail
 	case src.hitTrailer:
-		// finding ROB-3: FileInfo.getTrailer discards every error of
-		// fi.Read/readTrailer, I/O errors included
+		// former finding ROB-3 (fixed upstream in 24df3f0; regression detector):
+		// FileInfo.getTrailer discarded every error of fi.Read/readTrailer, I/O
+		// errors included
 		return "C19-makereader-trailer-io-error-swallowed", key + ": " + detail
 	case src.hitPeekShort:
 		// former finding ROB-1, fixed as D33 (see rob_scan.go); kept as a regression detector
